@@ -191,4 +191,93 @@ theorem triggs_item_hess_masked (hxR : x = ∑ a ∈ range d, R a * R a) (hx : 0
 
 end item
 
+
+/-! ### moved from Props (audit): generic list / sum facts behind the hardening oracles, flat indexing, generic-α components -/
+theorem sumN_add (n m : Nat) (f : Nat → ℝ) : sumN (n + m) f = sumN n f + sumN m (fun i => f (n + i)) := by
+  simp only [sumN_eq_sum]
+  rw [sum_range_add]
+
+/-- **Item-wise = batched** (correctors): corrected item `i` depends on `(R i, J i)` only — two batches that agree on
+item `i` give the same corrected item, whatever the other items (zero rows, masked rows, …) are. -/
+theorem corrector_itemwise (ρ1 ρ2 : ℝ → ℝ) (d : Nat) (R R' : Nat → Nat → ℝ) (J J' : Nat → Nat → Nat → ℝ) (i : Nat)
+    (hR : R i = R' i) (hJ : J i = J' i) :
+    (fun k => triggsOf ρ1 ρ2 d (R k) (J k)) i = (fun k => triggsOf ρ1 ρ2 d (R' k) (J' k)) i ∧
+    (fun k => fastOf ρ1 d (R k) (J k)) i = (fun k => fastOf ρ1 d (R' k) (J' k)) i := by
+  simp only [hR, hJ, and_self]
+
+/-- **Splitting a batch**: `J'ᵀR'`, `J'ᵀJ'` and the loss of a batch of `N + M` items are the sums over the first `N` and
+the remaining `M` items — calling the corrector on parts of a batch and stacking is the same as one call. -/
+theorem batch_split (N M d : Nat) (out : Nat → Out ℝ) (ρ : ℝ → ℝ) (R : Nat → Nat → ℝ) (l m : Nat) :
+    JtR (N + M) d out l = JtR N d out l + JtR M d (fun i => out (N + i)) l ∧
+    JtJ (N + M) d out l m = JtJ N d out l m + JtJ M d (fun i => out (N + i)) l m ∧
+    lossOne ρ (N + M) d R = lossOne ρ N d R + lossOne ρ M d (fun i => R (N + i)) := by
+  unfold JtR JtJ lossOne
+  exact ⟨sumN_add N M _, sumN_add N M _, sumN_add N M _⟩
+
+/-- **Statelessness of a call history**: the model of a corrector object is a function of the call's own arguments,
+so the results of a sequence of calls are the calls' individual results, in any order and with any repetition — a later
+call cannot depend on an earlier one (what the `history` stream checks on the real objects). -/
+theorem history_stateless {α β : Type} (f : α → β) (calls : List α) (k : Nat) (c : α) (h : calls[k]? = some c) :
+    (calls.map f)[k]? = some (f c) := by
+  simp [h]
+
+/-- **A failing call is atomic** (model of an object whose calls may fail, `none` = raises): the results of the calls that
+succeed are the same as in the history from which the failing calls are removed — a call that raised leaves no trace. -/
+theorem failed_calls_atomic {α β : Type} (f : α → Option β) (calls : List α) :
+    calls.filterMap f = (calls.filter fun c => (f c).isSome).filterMap f := by
+  induction calls with
+  | nil => rfl
+  | cons c cs ih =>
+    cases h : f c with
+    | none => simp [h, ih]
+    | some b => simp [h, ih]
+
+/-- **Copies and several objects are independent**: in a history of calls tagged with the object they are made on, the
+results seen on object `a` are exactly the results of `a`'s own sub-history (an object and its copy share `f`, not state). -/
+theorem objects_independent {τ α β : Type} [DecidableEq τ] (f : α → β) (calls : List (τ × α)) (a : τ) :
+    ((calls.map fun tc => (tc.1, f tc.2)).filter fun r => r.1 = a).map (·.2)
+      = ((calls.filter fun tc => tc.1 = a).map (·.2)).map f := by
+  induction calls with
+  | nil => rfl
+  | cons c cs ih =>
+    by_cases h : c.1 = a
+    · simp [h, ih]
+    · simp [h, ih]
+
+/-- **Values do not depend on the grad mode**: the model of a kernel / corrector call has no mode argument at all; stated
+for an explicit mode parameter `m`: any implementation `g` that agrees with the pure model `f` in one mode and ignores the
+mode agrees with it in every mode. -/
+theorem mode_independent {μ α β : Type} (f : α → β) (g : μ → α → β) (m0 : μ) (h0 : ∀ x, g m0 x = f x)
+    (hm : ∀ m m' x, g m x = g m' x) (m : μ) (x : α) : g m x = f x := by
+  rw [hm m m0 x, h0 x]
+
+/-- a sum over the `N*d` flat rows is the double sum over items and components -/
+theorem sumN_flat (N d : Nat) (f : Nat → ℝ) : sumN (N * d) f = sumN N fun i => sumN d fun a => f (i * d + a) := by
+  induction N with
+  | zero => simp [sumN]
+  | succ n ih =>
+    rw [Nat.succ_mul, sumN_add, ih]
+    simp only [sumN]
+
+theorem flat_index (d i a : Nat) (ha : a < d) : itemOf d (i * d + a) = i ∧ compOf d (i * d + a) = a := by
+  unfold itemOf compOf
+  constructor
+  · rw [Nat.add_comm, Nat.add_mul_div_right _ _ (by omega), Nat.div_eq_of_lt ha]; omega
+  · rw [Nat.add_comm, Nat.add_mul_mod_self_right]; exact Nat.mod_eq_of_lt ha
+
+section itemAlpha
+variable (d : Nat) (x g1 al : ℝ) (R : Nat → ℝ) (J : Nat → Nat → ℝ)
+theorem triggsAlpha_R (a : Nat) : (triggsAlpha d x g1 al R J).R a = Real.sqrt g1 * R a / (1 - al) := by
+  unfold triggsAlpha; simp only [sqrt_real, k_real, Nat.cast_one]
+
+theorem triggsAlpha_J (a l : Nat) :
+    (triggsAlpha d x g1 al R J).J a l = Real.sqrt g1 * (J a l - al / x * R a * ∑ b ∈ range d, R b * J b l) := by
+  unfold triggsAlpha
+  simp only [sqrt_real, sumN_eq_sum]
+  have : ∑ b ∈ range d, R a * R b * (Real.sqrt g1 * J b l) = R a * Real.sqrt g1 * ∑ b ∈ range d, R b * J b l := by
+    rw [mul_sum]; exact sum_congr rfl fun b _ => by ring
+  rw [this]; ring
+
+end itemAlpha
+
 end PP.Corrector
